@@ -1015,7 +1015,7 @@ func TestCheck(t *testing.T) {
 		steps := tierN(r, 10, 14)
 		hung := tierN(r, 12, 40)
 		racers := tierN(r, 6, 12)
-		racerIters := tierN(r, 400, 1500)
+		racerIters := tierN(r, 800, 2000)
 		vkit.Sched.Enable(uint64(r.Seed), 0.02, 0.01, 0.0005)
 		r.Parallel(n+hung+racers, 16, func(i int, g *vkit.Rand) {
 			if p := vkit.Safely(func() {
